@@ -29,6 +29,8 @@ pub struct Scen {
 
 /// Scenarios in which every fourth run of the seeded search carries the run parameter `preempt` (hook H8).
 pub const PREEMPT_SCENS: &[&str] = &["srv_subs", "srv_subs_book"];
+/// Scenarios in which every eighth run carries the run parameter `bigmsg` (long multi-byte poison messages).
+pub const BIGMSG_SCENS: &[&str] = &["cli_faults"];
 
 #[derive(Clone)]
 pub struct Sweep {
@@ -476,6 +478,9 @@ pub fn run_check(check: &Check, tier: &str) -> i32 {
 					let preempt_params;
 					let empty = if PREEMPT_SCENS.contains(&scen.name) && ri % 4 == 3 {
 						preempt_params = BTreeMap::from([("preempt".to_string(), 1u64)]);
+						&preempt_params
+					} else if BIGMSG_SCENS.contains(&scen.name) && ri % 8 == 5 {
+						preempt_params = BTreeMap::from([("bigmsg".to_string(), 1u64)]);
 						&preempt_params
 					} else {
 						&empty
